@@ -88,7 +88,7 @@ def unit_assemble_mapping() -> Dict[str, Any]:
 
 WORKER = r'''
 import sys, json, random, signal, tempfile, importlib, io, contextlib, time
-sys.path[:0] = ['/verif', '/repo']
+sys.path[:0] = ['/verif', __import__('os').environ.get('VERIF_REPO', '/repo')]
 from pathlib import Path
 flipjump = importlib.import_module('flipjump'); X = importlib.import_module('flipjump.utils.exceptions')
 R = importlib.import_module('flipjump.fjm.fjm_reader'); C = importlib.import_module('flipjump.fjm.fjm_consts')
@@ -187,10 +187,10 @@ F9_CASES = [('deep-nesting', 'l:\n;' + '+'.join(['l'] * 3000) + '\n'), ('pow-exp
 
 def f9_probe(rep: Report) -> None:
     """termination / recursion depth for user-chosen constants: listed (known finding F9), each in its own process"""
-    code = "import sys,tempfile,pathlib,io,contextlib;sys.path[:0]=['/repo'];import flipjump\nfrom flipjump.utils.exceptions import FlipJumpException\nsrc=sys.stdin.read()\nwith tempfile.TemporaryDirectory() as td:\n    f=pathlib.Path(td)/'p.fj';f.write_text(src)\n    try:\n        with contextlib.redirect_stdout(io.StringIO()):\n            flipjump.assemble([f],pathlib.Path(td)/'o.fjm',use_stl=False,print_time=False)\n        print('OK')\n    except FlipJumpException as e:\n        print('FUNNEL' if 'Unknown exception' in str(e) else 'SPECIFIC', type(e.__cause__).__name__)\n    except BaseException as e:\n        print('RAW', type(e).__name__)\n"
+    code = "import sys,tempfile,pathlib,io,contextlib;sys.path[:0]=[__import__('os').environ.get('VERIF_REPO','/repo')];import flipjump\nfrom flipjump.utils.exceptions import FlipJumpException\nsrc=sys.stdin.read()\nwith tempfile.TemporaryDirectory() as td:\n    f=pathlib.Path(td)/'p.fj';f.write_text(src)\n    try:\n        with contextlib.redirect_stdout(io.StringIO()):\n            flipjump.assemble([f],pathlib.Path(td)/'o.fjm',use_stl=False,print_time=False)\n        print('OK')\n    except FlipJumpException as e:\n        print('FUNNEL' if 'Unknown exception' in str(e) else 'SPECIFIC', type(e.__cause__).__name__)\n    except BaseException as e:\n        print('RAW', type(e).__name__)\n"
     for name, src in F9_CASES:
         try:
-            p = subprocess.run([sys.executable, '-c', code], input=src, capture_output=True, text=True, timeout=12, env=dict(os.environ, PYTHONPATH='/repo'))
+            p = subprocess.run([sys.executable, '-c', code], input=src, capture_output=True, text=True, timeout=12, env=dict(os.environ, PYTHONPATH=os.environ.get('VERIF_REPO', '/repo')))
             out = p.stdout.strip() or ('CRASH ' + p.stderr[-80:])
         except subprocess.TimeoutExpired:
             out = 'TIMEOUT'
@@ -203,7 +203,7 @@ def f9_probe(rep: Report) -> None:
 def bounded(rep: Report, tier: str, seed: int) -> None:
     import json
 
-    env = dict(os.environ, PYTHONPATH='/verif:/repo', PYTHONDONTWRITEBYTECODE='1')
+    env = dict(os.environ, PYTHONPATH='/verif:' + os.environ.get('VERIF_REPO', '/repo'), PYTHONDONTWRITEBYTECODE='1')
     p = subprocess.run([sys.executable, '-c', WORKER, tier, str(seed)], capture_output=True, text=True, timeout=3000, env=env)
     line = [l for l in p.stdout.splitlines() if l.startswith('@@RESULT@@')]
     if not line:
